@@ -368,6 +368,12 @@ func ruleXtextDecodesEveryPlus(c *Ctx) {
 	}
 	R.Ob("decodeXtext/has a decoding result", c.P.Pos(f.Pos()), nDec >= 1, "no accepting return fed by the hexchar replacement")
 	_ = nRaw
+	// the replacement sees EVERY '+': the pattern matches a bare '+' (shortest match one octet), so an incomplete
+	// hexchar reaches the callback, which refuses it; a pattern that only matches complete "+HH" lets "+", "+4",
+	// "+tag" through as literal text
+	pat, alts, problem := regexpAltLens(c, "hexcharRe")
+	okPat := problem == "" && len(alts) == 1 && alts[0][0] == 1 && strings.HasPrefix(pat, `\+`)
+	R.Ob("hexcharRe/matches every '+', complete or not", c.P.Pos(f.Pos()), okPat, fmt.Sprintf("pattern %q (match lengths %v, %s): a '+' that is not followed by two hex digits is not matched, so it is copied through instead of being refused", pat, alts, problem))
 }
 
 // rulePathBytesPassThrough (C14, C11): the scanning loops of the path parser decide about an octet only by comparing
